@@ -10,6 +10,9 @@ type propDef struct {
 	Oracles func(p *Plan) []Oracle
 	Setup   func(w *World)
 	Twin    func(t *testing.T, p *Plan, res *RunResult) // optional metamorphic second run
+	// KeepStep marks steps the shrinker must not remove (the skeleton that gives the plan its
+	// meaning, e.g. the configuration loads of C36 that the twin run is compared with)
+	KeepStep func(s *Step) bool
 }
 
 func pipeline(props ...string) func(p *Plan) []Oracle {
